@@ -51,7 +51,7 @@ def gen_cases(rng, tier, drift):
                           method="process" if proc else "thread", mc=rng.choice([None, None, rng.randint(1, nw)]),
                           prebatch=rng.choice([None, None, 1, 2, 3]), sf=rng.choice([0, 1, 2]), add=rng.randint(0, 5),
                           delay_seed=rng.randint(0, 10**6), pf=rng.choice([None, 1, 3]), batch_after=rng.choice([None, 2, 3]),
-                          drop=rng.random() < 0.5))
+                          drop=rng.random() < 0.5, none_mod=rng.choice([None, 2, 3])))
     return cases
 
 
@@ -66,17 +66,23 @@ def distribution(cases):
     return d
 
 
+def _skey(v):
+    return (v is None, 0 if v is None else v)
+
+
 class SlowAdd:
     """x -> x + k after a pseudo-random (item- and seed-dependent) delay, so results overtake each other"""
 
-    def __init__(self, k, seed):
-        self.k, self.seed = k, seed
+    def __init__(self, k, seed, none_mod=None):
+        self.k, self.seed, self.none_mod = k, seed, none_mod
 
     def __call__(self, x):
         import time
         h = (x * 2654435761 + self.seed * 40503) % 7
         if h < 3:
             time.sleep(0.0015 * h)
+        if self.none_mod and x % self.none_mod == 0:
+            return None     # a falsy / absent-looking result is still a result
         return x + self.k
 
 
@@ -110,9 +116,9 @@ def run_impl(c):
     node = IterableWrapper(list(xs))
     if c["pf"]:
         node = Prefetcher(node, prefetch_factor=c["pf"], snapshot_frequency=c["sf"])
-    node = ParallelMapper(node, SlowAdd(c["add"], c["delay_seed"]), num_workers=c["nw"], in_order=c["in_order"], method=c["method"],
+    node = ParallelMapper(node, SlowAdd(c["add"], c["delay_seed"], c.get("none_mod")), num_workers=c["nw"], in_order=c["in_order"], method=c["method"],
                           max_concurrent=c["mc"], snapshot_frequency=c["sf"], prebatch=c["prebatch"])
-    ref = [x + c["add"] for x in xs]
+    ref = [None if (c.get("none_mod") and x % c["none_mod"] == 0) else x + c["add"] for x in xs]
     if c["batch_after"]:
         node = Batcher(node, c["batch_after"], drop_last=c["drop"])
     fails = []
@@ -136,9 +142,9 @@ def run_impl(c):
             if c["batch_after"] and c["drop"]:
                 ok = len(flat) == want_len and all(flat.count(v) <= ref.count(v) for v in set(flat))
             else:
-                ok = sorted(flat) == sorted(ref)
+                ok = sorted(flat, key=_skey) == sorted(ref, key=_skey)
             if not ok:
-                fails.append(f"epoch {e}: got multiset {sorted(flat)}, reference {sorted(ref)}")
+                fails.append(f"epoch {e}: got multiset {sorted(flat, key=_skey)}, reference {sorted(ref, key=_skey)}")
     del node
     return dict(oracle="; ".join(fails[:2]) or None, nontrivial=len(xs) >= 2, key=[c[k] for k in sorted(c) if k != "kind"])
 
